@@ -52,7 +52,7 @@ def run(ctx):
     bl = runner.get_bashlex()
     inputs = common.dedup(common.corpus_inputs() + common.random_scripts(seed, 500 if quick else 8000, unsupported=0.06))
     if ctx.get('replay'): inputs = [json.load(open(ctx['replay']))['input']]
-    lines = []; meta = []; kinds = collections.Counter(); identity_bad = []
+    lines = []; meta = []; kinds = collections.Counter(); identity_bad = []; shift_items = []; shift_meta = []
     for s in inputs:
         for opts in (dict(), dict(proceedonerror=True)):
             o = canon.run(bl, 'parse', s, **opts)
@@ -76,6 +76,18 @@ def run(ctx):
             twice = [reach[i] for i, c in cnt.items() if c > 1 and i in reach]
             if missing or twice:
                 identity_bad.append((s, opts, ('not-visited:' + d(missing[0])) if missing else ('visited-twice:' + d(twice[0]))))
+            # the helpers built on the visitor: posshifter(k) must move every span exactly once (Props.C15 preorder_mapPos on the model side)
+            if not opts.get('convertpos') and len(shift_items) < (3000 if quick else 60000):
+                import copy
+                for k in ((1, 2, 3, 4) if len(reach) <= 14 else (rng.choice([1, 2, 3, 5, 8]),)):
+                    try:
+                        cp = copy.deepcopy(trees)
+                        for t in cp: bl.ast.posshifter(k).visit(t)
+                        so = ('OK ' if o.startswith('OK ') else 'OK ') + canon.canon(cp, bl.ast.node)
+                    except Exception as e:
+                        so = 'EXN F|%s|posshifter' % type(e).__name__
+                    base = o if o.startswith('OK ') else 'OK [' + o[4:] + ']'
+                    shift_items.append(('C13', [k], s, ['OK []', base, so])); shift_meta.append((s, opts, k))
             alln = [x[1:] for x in r.trace if x.startswith('E')]
             for x in alln: kinds[x[1:].split('@')[0]] += 1
             meta.append((s, opts, '-', esc(' '.join(r.trace)))); lines.append('visit\t-\t-\t' + o)
@@ -98,6 +110,14 @@ def run(ctx):
             if len(violations) < 25 and not any(v['signature'] == sig for v in violations):
                 violations.append(dict(property='C15', input=s, options=opts, prune_at=tg, signature=sig, impl_trace=itrace[:3000], spec_trace=mtrace[:3000],
                                        how='callback trace of a recording nodevisitor subclass versus Lean visit (= specification by Props.C15)'))
+    from propchecks.relprops import rel_batch
+    for k0 in range(0, len(shift_items), 1000):
+        for (s_, opts_, k), sigs in zip(shift_meta[k0:], rel_batch(shift_items[k0:k0 + 1000])):
+            if sigs:
+                sig = 'posshifter-does-not-move-every-span-once'
+                if len(violations) < 25 and not any(v['signature'] == sig for v in violations):
+                    violations.append(dict(property='C15', input=s_, options=opts_, shift=k, signature=sig, detail=sigs[:3],
+                                           how='ast.posshifter(k) applied to a copy of the returned tree versus Node.shift k (Lean) of the tree'))
     for s_, opts_, what in identity_bad:
         sig = 'node-' + what.split(':')[0]
         if len(violations) < 25 and not any(v['signature'] == sig for v in violations):
